@@ -8,7 +8,7 @@ SHRINK_KEYS = ["ops", "exprs", "terms"]
 RULE = ("random models with dyadic coefficients converted through every entry point (BQM.change_vartype in/out of place on 3 dtypes, "
         "live .spin/.binary views read and written incl. after the base changed vartype in place, QM/CQM change_vartype and "
         "spin_to_binary, BinaryPolynomial.to_spin/to_binary, to_ising/to_qubo/from_*/ising_to_qubo/qubo_to_ising, "
-        "SampleSet.change_vartype over signed / unsigned / bool / float sample storage), plus the raw internal state (adjacency structures, varinfo, pyBQM dicts, expression vectors, the dicts given to and returned by "
+        "flip_variable on QM / BQM / CQM incl. refused flips and discrete constraints, refused SampleSet conversions, SampleSet.change_vartype over signed / unsigned / bool / float sample storage), plus the raw internal state (adjacency structures, varinfo, pyBQM dicts, expression vectors, the dicts given to and returned by "
         "ising_to_qubo / qubo_to_ising) before and after each conversion fed to the code-shaped models; non-trivial = something is converted and the model has terms; distinct by case JSON")
 TRUSTED = ["model: coq/theories/Model/{Poly,HPoly,View,ChkC02}.v; code-shaped models Model/{AdjSubstAll,PyBqm,IsingQubo,SSetVartype}.v (abc.h substitute_variables on the raw adjacency structure, pyBQM.change_vartype over multipliers generated from pybqm.py by translators/pybqm_multipliers.py, the dict loops of ising_to_qubo/qubo_to_ising, SampleSet.change_vartype), each proved energy preserving and compared with the observed raw state / dicts / rows inside Coq",
            "float arithmetic of the implementation is exact on the generated dyadic data (not verified)",
